@@ -604,7 +604,224 @@ def concrete_edge(job, vals, oldv, newv, tdesc):
     return {"changed_wrongly": wrong, "detail": f"old={out['old']} new={out['new']} wrongly changed: {wrong}"}
 
 
+# ---------------------------------------------------------------------------------------- extra designs
+def _levels_loop(sim, toggles, body):
+    """Enumerate every (old, new) level combination of `toggles` (1-bit signals)."""
+    n = len(toggles)
+    for oldv in range(1 << n):
+        for newv in range(1 << n):
+            yield oldv, newv
+
+
+def special_obligation(job, concrete=None):
+    """Hand-built designs for corners the generated cores do not contain:
+      late-bound : ClockSignal()/ResetSignal() in a parent whose child defines a domain of the same name;
+      split      : one register whose halves live in two domains (one with asynchronous reset);
+      rename-multi: DomainRenamer with a map whose targets are also sources (swap / chain) around a hierarchy with a Memory."""
+    kind = job["kind"]
+    base = {"id": job["id"], "nontrivial": True, "kind": kind, "symbolic": "register values and inputs; clock/reset levels enumerated (old x new)"}
+    from amaranth.hdl import ClockSignal, ResetSignal
+    top = Module()
+    regs = []        # (signal, clk, rst or None, async?, polarity, next-fn(old value, inputs) , init, mask)
+    if kind == "late-bound":
+        cd = ClockDomain("sync")
+        top.domains += cd
+        o_clk, o_rst, p, q, din = Signal(name="o_clk"), Signal(name="o_rst"), Signal(3, name="p", init=2), Signal(3, name="q", init=5), Signal(3, name="din")
+        top.d.comb += [o_clk.eq(ClockSignal("sync")), o_rst.eq(ResetSignal("sync"))]
+        top.d.sync += p.eq(p + din)
+        child = Module()
+        ccd = ClockDomain("sync", clk_edge=job.get("edge", "pos"), async_reset=job.get("async", False))
+        child.domains += ccd
+        child.d.sync += q.eq(q ^ din)
+        if job.get("child_uses_cs"):
+            o2 = Signal(name="o2")
+            child.d.comb += o2.eq(ClockSignal("sync"))
+        top.submodules.child = child
+        text = f"parent: sync domain, o_clk = ClockSignal('sync'), o_rst = ResetSignal('sync'), p += din; child defines its own 'sync' ({job.get('edge', 'pos')}edge, async={job.get('async', False)}), q ^= din"
+        toggles = [cd.clk, ccd.clk] + ([ccd.rst] if job.get("async") else [])
+        aliases = [(o_clk, cd.clk), (o_rst, cd.rst)] + ([(o2, ccd.clk)] if job.get("child_uses_cs") else [])
+        regs = [(p, cd, lambda v, e: (v + e["din"]) & 7, 0b111), (q, ccd, lambda v, e: (v ^ e["din"]) & 7, 0b111)]
+        ins = {"din": din}
+    elif kind == "split":
+        da = ClockDomain("a", async_reset=True)
+        db = ClockDomain("b", async_reset=job.get("b_async", False), clk_edge=job.get("edge", "pos"))
+        top.domains += [da, db]
+        s = Signal(Shape(8, job.get("signed", False)), name="s", init=job.get("init", 0x5A) - (256 if job.get("signed") and job.get("init", 0x5A) >= 128 else 0))
+        din = Signal(4, name="din")
+        top.d.a += s[0:4].eq(s[0:4] + din)
+        top.d.b += s[4:8].eq(s[4:8] ^ din)
+        text = f"s: {'signed' if job.get('signed') else 'unsigned'}(8) init={s.init}; s[0:4] += din in domain a (async reset); s[4:8] ^= din in domain b ({job.get('edge', 'pos')}edge, async={job.get('b_async', False)})"
+        toggles = [da.clk, db.clk, da.rst] + ([db.rst] if job.get("b_async") else [])
+        aliases = []
+        regs = [(s, da, lambda v, e: (v & 0xF0) | (((v & 0xF) + e["din"]) & 0xF), 0x0F), (s, db, lambda v, e: (v & 0x0F) | ((((v >> 4) ^ e["din"]) & 0xF) << 4), 0xF0)]
+        ins = {"din": din}
+    else:
+        mapping = job["map"]
+        doms = {n: ClockDomain(n) for n in ("sync", "b", "c")}
+        top.domains += list(doms.values())
+        a, bq, din = Signal(3, name="a", init=1), Signal(3, name="bq", init=6), Signal(3, name="din")
+        md = MemoryData(shape=3, depth=2, init=[3, 4])
+        waddr, wen, raddr, rdata = Signal(1, name="waddr"), Signal(1, name="wen"), Signal(1, name="raddr"), Signal(3, name="rdata")
+
+        class Inner(Elaboratable):
+            def elaborate(self, platform):
+                m = Module()
+                m.d.sync += a.eq(a + din)
+                sub = Module()
+                sub.d.b += bq.eq(bq - din)
+                m.submodules.sub = sub
+                mem = Memory(data=md)
+                m.submodules.mem = mem
+                wp = mem.write_port(domain="sync")
+                rp = mem.read_port(domain="b")
+                m.d.comb += [wp.addr.eq(waddr), wp.data.eq(din), wp.en.eq(wen), rp.addr.eq(raddr), rp.en.eq(1), rdata.eq(rp.data)]
+                return m
+        top.submodules.inner = DomainRenamer(dict(mapping))(Inner())
+        fa, fb = mapping.get("sync", "sync"), mapping.get("b", "b")
+        text = f"DomainRenamer({mapping}) around: a += din in 'sync', bq -= din in 'b' (child), Memory write port in 'sync', read port in 'b'"
+        toggles = [doms["sync"].clk, doms["b"].clk, doms["c"].clk]
+        aliases = []
+        regs = [(a, doms[fa], lambda v, e: (v + e["din"]) & 7, 7), (bq, doms[fb], lambda v, e: (v - e["din"]) & 7, 7)]
+        ins = {"din": din, "waddr": waddr, "wen": wen, "raddr": raddr}
+        memspec = (md, doms[fa], doms[fb], rdata)
+    base["program"] = text
+    base["assertion"] = "each register half / memory port reacts to the active edge (and asynchronous reset) of exactly the domain it ends up in, with the documented reset behaviour; ClockSignal/ResetSignal alias their own domain"
+    try:
+        with warnings.catch_warnings():
+            warnings.simplefilter("ignore")
+            sim = symsim.SymSim(top) if concrete is None else symsim.SymSim(top, merge=False, hstate=False)
+    except Exception as ex:
+        return [dict(base, status=VIOLATION, detail=f"{text}: does not elaborate/simulate: {type(ex).__name__}: {ex}", signature={"kind": kind, "what": "construction"},
+                     replay={"job": job, "special": True})]
+    n = len(toggles)
+    from vlib.pysym import sym_ite, bool_term
+    for oldv in (range(1 << n) if concrete is None else [concrete[0]]):
+        for newv in (range(1 << n) if concrete is None else [concrete[1]]):
+            def lvl(sig, v):
+                for j, t in enumerate(toggles):
+                    if t is sig:
+                        return (v >> j) & 1
+                return None
+
+            def scen():
+                sim.reset()
+                if concrete is None:
+                    sim.sym_state("v", clocks=[(t, (oldv >> j) & 1) for j, t in enumerate(toggles) if sim.is_clock(t)])
+                else:
+                    for sl in sim.state.slots:
+                        if hasattr(sl, "signal"):
+                            for kk, vv in concrete[2].items():
+                                if kk.split("_", 1)[-1] == sl.signal.name and not any(sl.signal is t for t in toggles):
+                                    w_ = len(sl.signal)
+                                    vv &= (1 << w_) - 1
+                                    if sl.signal.shape().signed and w_ and vv >> (w_ - 1):
+                                        vv -= 1 << w_
+                                    sl.curr = sl.next = vv
+                        else:
+                            for i_ in range(len(sl.data)):
+                                for kk, vv in concrete[2].items():
+                                    if kk.endswith(f"_mem{i_}"):
+                                        sl.data[i_] = vv
+                    for j, t in enumerate(toggles):
+                        if sim.is_clock(t):
+                            sim.poke(t, (oldv >> j) & 1)
+                for j, t in enumerate(toggles):
+                    if not sim.is_clock(t):
+                        sim.poke(t, (oldv >> j) & 1)
+                sim.settle()
+                env = {k: sim.value(sg) for k, sg in ins.items()}
+                old = {id(r[0]): sim.value(r[0]) for r in regs}
+                rsts = {id(r[1]): (sim.value(r[1].rst) if r[1].rst is not None else 0) for r in regs}
+                mem_old = list(sim.mem_slot(memspec[0]).data) + [sim.value(memspec[3])] if kind == "rename-multi" else None
+                sim.set(Cat(*toggles), newv)
+                sim.engine.step_design()
+                pairs = []
+                for (al, src) in aliases:
+                    want = lvl(src, newv)
+                    if want is None:
+                        want = sim.value(src)
+                    pairs.append((f"{al.name} aliases {src.name}", sim.value(al), want))
+                # registers: fold the domains' effects (each owns `mask` bits)
+                for sg in {id(r[0]): r[0] for r in regs}.values():
+                    v0 = old[id(sg)]
+                    u0 = v0 & ((1 << len(sg)) - 1)
+                    want = u0
+                    for (rs, cd_, fn, mask) in regs:
+                        if rs is not sg:
+                            continue
+                        pol = 1 if cd_.clk_edge == "pos" else 0
+                        oc, nc = lvl(cd_.clk, oldv), lvl(cd_.clk, newv)
+                        active = oc != nc and nc == pol
+                        rl = lvl(cd_.rst, newv) if cd_.rst is not None else 0
+                        if rl is None:
+                            rl = rsts[id(cd_)]
+                        arise = cd_.async_reset and lvl(cd_.rst, oldv) == 0 and lvl(cd_.rst, newv) == 1
+                        initu = sg.init & ((1 << len(sg)) - 1)
+                        if active:
+                            stepped = fn(u0, env)
+                            part = sym_ite(rl != 0, initu, stepped) & mask
+                            want = (want & ~mask) | part
+                        elif arise:
+                            want = (want & ~mask) | (initu & mask)
+                    got = sim.value(sg) & ((1 << len(sg)) - 1)
+                    pairs.append((f"register {sg.name}", got, want))
+                if kind == "rename-multi":
+                    md_, dw_, dr_, rdata_ = memspec
+                    rows = list(sim.mem_slot(md_).data)
+                    w_active = lvl(dw_.clk, oldv) == 0 and lvl(dw_.clk, newv) == 1
+                    r_active = lvl(dr_.clk, oldv) == 0 and lvl(dr_.clk, newv) == 1
+                    for i in range(2):
+                        want = sym_ite(sym_and(w_active, sym_and(env["wen"] != 0, env["waddr"] == i)), env["din"], mem_old[i]) if w_active else mem_old[i]
+                        pairs.append((f"memory row {i} (write port must follow the renamed domain)", rows[i], want))
+                    rd_want = sym_ite(env["raddr"] == 0, mem_old[0], mem_old[1]) if r_active else mem_old[2]
+                    if not (w_active and r_active):
+                        pairs.append(("read port register (must follow the renamed domain)", sim.value(rdata_), rd_want))
+                return pairs
+            if concrete is not None:
+                return [nm for nm, got, want in scen() if got != want]
+            try:
+                paths = explore(scen, max_paths=64)
+            except (Inconclusive, Unsupported) as e:
+                return [dict(base, status=INCONCLUSIVE, detail=f"{type(e).__name__}: {e}")]
+            for p in paths:
+                if p.exc is not None:
+                    return [dict(base, status=ERROR, detail=f"exception: {type(p.exc).__name__}: {p.exc}")]
+                diffs, names = [], []
+                for nm, got, want in p.value:
+                    ne = neq_term(got, want)
+                    if ne is not False:
+                        diffs.append(bool_term(ne))
+                        names.append(nm)
+                if not diffs:
+                    continue
+                s = z3.Solver()
+                s.set("timeout", 120000)
+                for c in p.pc:
+                    s.add(c)
+                s.add(z3.Or(*diffs))
+                r_ = timed_check(s)
+                if r_ == z3.unknown:
+                    return [dict(base, status=INCONCLUSIVE, detail="solver unknown")]
+                if r_ == z3.sat:
+                    mdl = s.model()
+                    bad = [nm for nm, d in zip(names, diffs) if z3.is_true(mdl.eval(d, model_completion=True))]
+                    vals = {str(d): mdl[d].as_long() for d in mdl.decls()}
+                    tn = [t.name for t in toggles]
+                    # replay on the unmodified engine (real state classes, native generated code) with plain ints
+                    with symsim.real_states():
+                        bad_real = special_obligation(job, concrete=(oldv, newv, vals))
+                    if not bad_real:
+                        return [dict(base, status=UNREPRODUCED, detail=f"{text}: levels {oldv:0{n}b}->{newv:0{n}b} values {vals}: {bad} did not reproduce")]
+                    bad = bad_real
+                    return [dict(base, status=VIOLATION, detail=f"{text}: levels {tn} {oldv:0{n}b}->{newv:0{n}b}, values {vals}: wrong: {bad}",
+                                 cex={"model": vals, "old": oldv, "new": newv}, signature={"kind": kind, "what": ",".join(sorted(set(b.split(' ')[0] for b in bad)))},
+                                 replay={"job": job, "special": True, "old": oldv, "new": newv, "model": vals})]
+    return [dict(base, status=PROVED, events=(1 << n) ** 2)]
+
+
 def job_fn(job):
+    if job["what"] == "special":
+        return special_obligation(job)
     return law_obligation(job) if job["what"] == "law" else edge_obligation(job)
 
 
@@ -613,6 +830,12 @@ def replay(path):
     with open(path) as f:
         d = json.load(f)
     r = d["replay"]
+    if r.get("special"):
+        with symsim.real_states():
+            bad = special_obligation(r["job"], concrete=(r.get("old", 0), r.get("new", 0), r.get("model", {})))
+        print(d["program"])
+        print(f"levels {r.get('old')} -> {r.get('new')}, values {r.get('model')}: wrong on the real engine: {bad}")
+        return 1 if bad else 0
     if r["job"]["what"] == "law":
         rep = concrete_law(r["job"], r["model"])
         print(rep["detail"])
@@ -643,6 +866,12 @@ def main(tier, seed):
             kinds[0] = k
         jobs.append({"id": f"edge-{k:03d}", "what": "edge", "seeds": [seed * 1000 + 500 + k * 3 + j for j in range(nd)], "kinds": kinds,
                      "max_events": 64 if tier == "quick" else 256})
+    for k, (edge, asy, cs) in enumerate([("pos", False, False), ("neg", False, True), ("pos", True, True), ("neg", True, False)]):
+        jobs.append({"id": f"special-late-bound-{k}", "what": "special", "kind": "late-bound", "edge": edge, "async": asy, "child_uses_cs": cs})
+    for k, (sg, init, basy, edge) in enumerate([(False, 0x5A, False, "pos"), (True, 0xC3, False, "neg"), (False, 0xFF, True, "pos"), (True, 0x81, True, "pos")]):
+        jobs.append({"id": f"special-split-{k}", "what": "special", "kind": "split", "signed": sg, "init": init, "b_async": basy, "edge": edge})
+    for k, mp in enumerate([{"sync": "b", "b": "sync"}, {"sync": "b", "b": "c"}, {"sync": "c"}, {"b": "c", "sync": "b"}]):
+        jobs.append({"id": f"special-rename-multi-{k}", "what": "special", "kind": "rename-multi", "map": mp})
     results, stats = run.run_jobs(job_fn, jobs)
     skipped = [x for x in results if x.get("status") == "skipped"]
     results = [x for x in results if x.get("status") != "skipped"]
